@@ -1,7 +1,7 @@
 (* Properties/C11.v — Money converter yields the right rate for every update
    history and date.  Statements only; proofs in Proofs/C11Proofs.v. *)
 From Coq Require Import ZArith QArith List Bool.
-From QV Require Import Model.MoneyConv Proofs.C11Proofs.
+From QV Require Import Model.Num Model.Rates Model.MoneyConv Proofs.C11Proofs Gen.MoneyConvImpl Proofs.GenMoneyConvEq.
 Import ListNotations.
 Open Scope Z_scope.
 
@@ -299,3 +299,18 @@ Example ex_call :
   conv_call (run ex_history (conv_init 0%N)) MHEVEN 0%N (1234 # 100) 1%N None (mkDate 2020 3 1)
   = Ok (6787 # 500).
 Proof. vm_compute. reflexivity. Qed.
+
+(* the look-up side of the model IS the code: MoneyConverter._get_rate, get_rate
+   and __call__ of src/quantity/money/__init__.py are re-translated on every run
+   (Gen/MoneyConvImpl.v, fail-closed translator translate/mconv.py) and equal
+   the model functions for every converter state and every query; the update
+   side (validity spellings, construction of the rates) stays hand-modelled and
+   tied by the correspondence check *)
+Theorem C11_model_is_translated_code : forall st dm u t eff dflt a,
+  get_rate_key_impl st t eff dflt = lookup_rate st t eff dflt /\
+  get_rate_impl st dm u t eff dflt = conv_get_rate st dm u t eff dflt /\
+  call_impl st dm u a t eff dflt = conv_call st dm u a t eff dflt.
+Proof.
+  intros. split; [apply get_rate_key_impl_eq|]. split; [apply get_rate_impl_eq | apply call_impl_eq].
+Qed.
+Print Assumptions C11_model_is_translated_code.
